@@ -96,15 +96,16 @@ type vCase struct {
 }
 
 type vMachine struct {
-	forced []vOp // operations to generate next, queued by the generator itself
-	xPaid  bool  // C19 external: some reward program has paid something out
-	t      rec.TB
-	r      *rec.Rec
-	prop   string
-	c      *world.Chain
-	cs     *vCase
-	apps   []uint64
-	unsol  map[string]sdk.Int // unsolicited transfers into vault custody per denom
+	forced        []vOp // operations to generate next, queued by the generator itself
+	xPaid         bool  // C19 external: some reward program has paid something out
+	esmRegistered bool  // C02: debt was registered for emergency redemption at some point
+	t             rec.TB
+	r             *rec.Rec
+	prop          string
+	c             *world.Chain
+	cs            *vCase
+	apps          []uint64
+	unsol         map[string]sdk.Int // unsolicited transfers into vault custody per denom
 	// per history statistics
 	okKinds   map[string]int
 	usersOn   map[int]map[int]bool // product -> users that created a vault there
@@ -393,6 +394,12 @@ func (m *vMachine) genOp(rt *rapid.T, i int) vOp {
 	if m.prop == "C19" {
 		if k := rapid.SampledFrom([]string{"", "", "", "", "xlocker", "xvault", "day", "day", "day"}).Draw(rt, lbl("xkind")); k != "" {
 			return m.c19XGenOp(rt, i, k)
+		}
+	}
+	if m.prop == "C02" && cfg.Liq == nil && cfg.Seed%3 == 0 { // a third of the generated worlds
+		// emergency shutdown of an app, the blocks that carry it through its cool-off, and redemptions afterwards
+		if op, ok := m.c02EsmGenOp(rt, i); ok {
+			return op
 		}
 	}
 	if len(cfg.Lockers) > 0 && rapid.IntRange(0, 9).Draw(rt, lbl("lockerop")) < lockerWeight(m.prop) {
@@ -686,6 +693,10 @@ func (m *vMachine) apply(i int, op vOp) {
 		m.c19XApply(i, op)
 		m.invariants(i, op)
 		return
+	case "esm", "redeem":
+		m.c02EsmApply(i, op)
+		m.invariants(i, op)
+		return
 	case "block":
 		if err := c.NextBlockRecover(time.Duration(op.Dt) * time.Second); err != nil {
 			m.fail(m.prop+".block-hook-panic", "block", "step %d: %v", i, err)
@@ -947,6 +958,16 @@ func (m *vMachine) c02Invariants(i int, op vOp) {
 			}
 		}
 		circ := c.Supply(a.Denom).Sub(c.Minted.AmountOf(a.Denom))
+		// debt registered for emergency redemption: when an app's shutdown has run its course its vaults are closed and
+		// their principal is recorded per debt asset, to be bought back (and burned) against the pooled collateral
+		for _, app := range m.apps {
+			if reg, ok := c.App.EsmKeeper.GetAssetToAmount(c.Ctx, app, a.ID); ok && !reg.IsCollateral {
+				sum = sum.Add(reg.Amount)
+				if reg.Amount.IsPositive() {
+					m.esmRegistered = true
+				}
+			}
+		}
 		if cfg.Liq != nil {
 			// with liquidations: never more in circulation than the principal of open vaults plus that of vaults awaiting
 			// the settlement of their auction (the settlement burns it, together with interest and closing fee)
@@ -960,6 +981,9 @@ func (m *vMachine) c02Invariants(i int, op vOp) {
 				m.fail("C02.supply-within-principal", "after:"+op.K, "step %d: vault-minted supply of %s is %s; open vaults record %s, vaults awaiting auction settlement %s", i, a.Denom, circ, sum, awaiting)
 			}
 			continue
+		}
+		if debugErrs {
+			fmt.Printf("DBG c02 step %d %s %s: circ=%s sum(with registered)=%s vaults=%d stable=%d\n", i, op.K, a.Denom, circ, sum, len(vk.GetVaults(c.Ctx)), len(vk.GetStableMintVaults(c.Ctx)))
 		}
 		// histories of this machine contain no liquidation: exact equality
 		if !circ.Equal(sum) {
@@ -1174,6 +1198,9 @@ func (m *vMachine) finish() {
 	case "C02":
 		if m.ntMint > 0 && ok["repay"]+ok["close"]+ok["smwithdraw"] > 0 {
 			r.NonTrivial(m.cs)
+		}
+		if m.esmRegistered {
+			r.Class("debt-registered-for-emergency-redemption")
 		}
 	case "C13":
 		m.c13Finish()
